@@ -400,9 +400,9 @@ class Stack:
 
     # every call returns the abstract observation, None when the operation failed
     def register(self, ver, secret, attrs):
-        ot, core = build_secret(secret)
-        tmpl = cobjects.TemplateAttribute(attributes=[build_attr(a) for a in attrs])
         try:
+            ot, core = build_secret(secret)
+            tmpl = cobjects.TemplateAttribute(attributes=[build_attr(a) for a in attrs])
             r = self.clients[ver].proxy.register(ot, tmpl, core)
         except Exception as e:          # refused by the client's own encoder: nothing was sent
             self.clients[ver].proxy.protocol.socket.rbuf = b''
@@ -577,8 +577,25 @@ def g_bytes(rng, big=300):
     return bytes(rng.randrange(256) for _ in range(rng.choice([8, 16, 16, 24, 32, 32, 64, rng.randint(1, 70)])))
 
 
+# both sides of every width the wire (Integer 32 bit, Big Integer in 8-byte blocks) and the SQL columns (64 bit) have
+BOUNDS = [2 ** 31 - 1, 2 ** 31, 2 ** 32 - 1, 2 ** 32, 2 ** 63 - 1, 2 ** 63, 2 ** 64 - 1, 2 ** 64, 2 ** 64 - 59,
+          -1, -2 ** 31, -2 ** 31 - 1, -2 ** 63, -2 ** 63 - 1, 2 ** 127, -2 ** 64]
+
+
 def g_int(rng):
+    r = rng.random()
+    if r < 0.06:
+        return rng.choice([2 ** 31 - 1, -1, -2 ** 31])                         # the ends of the 32-bit Integer, inside
+    if r < 0.075:
+        return rng.choice([2 ** 31, 2 ** 32 - 1, 2 ** 32, -2 ** 31 - 1])        # just outside: the encoder must refuse
     return rng.choice([0, 0, 1, 1, 2, 7, 8, 12, 16, 96, 128, 255, 256, 65535, 2 ** 31 - 1, rng.randrange(2 ** 31)])
+
+
+def g_small(rng, small):
+    r = rng.random()
+    if r < 0.1:
+        return rng.choice([2 ** 31 - 1, -1, -2 ** 31])
+    return rng.choice(BOUNDS) if r < 0.13 else rng.choice(small)
 
 
 def g_member(rng, en):
@@ -639,12 +656,12 @@ def g_secret(rng, cls, big=300):
         return {'k': 'key', 'cls': cls, 'kb': g_kb(rng, [K.RAW, K.PKCS_1, K.PKCS_8], big)}
     if cls == 'CSplit':
         method = g_member(rng, E.SplitKeyMethod)
-        prime = rng.choice([None, 0, 1, 257, 2 ** 31, 2 ** 62 + 5, 2 ** 63 - 1, rng.randrange(2 ** 63)])
+        prime = rng.choice([None, 0, 1, 257, 2 ** 62 + 5, rng.randrange(2 ** 63)]) if rng.random() < 0.55 else rng.choice(BOUNDS)
         if method == E.SplitKeyMethod.POLYNOMIAL_SHARING_PRIME_FIELD.value and prime is None:
             prime = 104729
         return {'k': 'split', 'kb': g_kb(rng, list(K), big),
-                'sp': {'parts': rng.choice([0, 1, 2, 3, 5, 255, 2 ** 31 - 1]), 'ident': rng.choice([0, 1, 2, 3]),
-                       'thresh': rng.choice([0, 1, 2, 5]), 'method': method, 'prime': prime}}
+                'sp': {'parts': g_small(rng, [0, 1, 2, 3, 5, 255]), 'ident': g_small(rng, [0, 1, 2, 3]),
+                       'thresh': g_small(rng, [0, 1, 2, 5]), 'method': method, 'prime': prime}}
     if cls == 'CCert':
         return {'k': 'cert', 'ctype': E.CertificateType.X_509.value if rng.random() < 0.93 else E.CertificateType.PGP.value,
                 'value': g_bytes(rng, big)}
@@ -691,6 +708,8 @@ def g_attrs(rng, ver, secret):
             z = 0 if m < 0.1 else (sum(MASK_BITS) if m < 0.25 else (rng.choice(MASK_BITS) if m < 0.4 else sum(rng.sample(MASK_BITS, rng.randint(1, 8)))))
             if rng.random() < 0.03:
                 z |= 1 << rng.randint(24, 30)      # an undefined bit
+            if rng.random() < 0.04:
+                z = rng.choice([2 ** 31 - 1, 2 ** 31, -1, -2 ** 31, 2 ** 32])      # the ends of the 32-bit Integer
             out.append({'kind': 'mask', 'idx': rng.choice([None, 0]), 'z': z})
     if secret['k'] in ('key', 'split') and rng.random() < 0.3:
         kb = secret['kb']
@@ -1289,7 +1308,11 @@ def convert_pair(ctx, secret):
     """ObjectFactory.convert in both directions on one abstract secret, outside any server."""
     from kmip.pie import factory
     f = factory.ObjectFactory()
-    _, core = build_secret(secret)
+    try:
+        _, core = build_secret(secret)
+    except Exception as e:       # a value the kmip.core classes refuse to hold
+        ctx.count('convert.unbuildable.%s' % type(e).__name__)
+        return
     try:
         pie = f.convert(core)
     except Exception:
@@ -1365,6 +1388,12 @@ def corpus():
         ((1, 4), {'k': 'secret', 'dtype': 1, 'kb': {'fmt': K.RAW.value, 'value': b'pw', 'alg': None, 'len': None, 'kwd': None}}, []),
         ((1, 4), {'k': 'opaque', 'ot': E.OpaqueDataType.NONE.value, 'value': b''}, [name('a', 1, 0), name('b', 1, 1)]),
         ((1, 2), {'k': 'cert', 'ctype': 1, 'value': b'\x30\x00'}, [{'kind': 'mask', 'idx': 0, 'z': sum(MASK_BITS)}]),
+    ] + [
+        # Big Integer boundaries of the only Big Integer on this path (split key prime field size): stored and returned exactly, or refused
+        ((1, 3), {'k': 'split', 'kb': {'fmt': K.RAW.value, 'value': b'\x09' * 16, 'alg': 3, 'len': 128, 'kwd': None},
+                  'sp': {'parts': parts, 'ident': 1, 'thresh': 2, 'method': 1, 'prime': prime}}, [])
+        for parts, prime in [(3, 2 ** 63 - 1), (3, 2 ** 63), (2 ** 31 - 1, 2 ** 64 - 59), (3, 2 ** 64 - 1), (3, 2 ** 64), (-1, -1), (-2 ** 31, -2 ** 63),
+                             (3, -2 ** 63 - 1), (3, 2 ** 31), (3, 2 ** 32)]
     ]
 
 
@@ -1409,7 +1438,7 @@ def run(ctx):
 
     hists = []
     # corpus first (known findings + past disagreements), one history
-    hists.append(run_history(ctx, ctx.subrng('corpus'), der, 0, 30, big, forced=corpus()))
+    hists.append(run_history(ctx, ctx.subrng('corpus'), der, 0, 45, big, forced=corpus()))
     hists.append(scenario_history(ctx, der))
     n_hist = 110 if quick else 400
     for h in range(2, n_hist + 2):
